@@ -12,6 +12,9 @@ pub enum PingFault {
     /// echo the value of the previous PING seen on this server instead
     Stale,
     Wrong,
+    /// the value of a PING that arrives *after* this one on another connection of the same server (overlapping
+    /// recycles); if none arrives within 200 ms, an unrelated wrong value
+    Newest,
     /// a well-known reply that is not the echo (index into NAMED_REPLIES; even = bulk string, odd = simple string)
     Named(u8),
     /// something that is not the value at all: 0 = nil, 1 = empty string, 2 = an array holding the value,
@@ -252,6 +255,21 @@ async fn serve<S: AsyncRead + AsyncWrite + Unpin>(mut s: S, k: usize, st: Arc<Mu
                                 _ => format!("{}.0", v),
                             };
                             out.extend(bulk(&l))
+                        }
+                        Some(PingFault::Newest) => {
+                            let mine = val.clone().unwrap_or_default();
+                            let mut other: Option<String> = None;
+                            for _ in 0..200 {
+                                let cur = server.last_ping.lock().unwrap().clone();
+                                if let Some(c) = cur {
+                                    if c != mine {
+                                        other = Some(c);
+                                        break;
+                                    }
+                                }
+                                tokio::time::sleep(std::time::Duration::from_millis(1)).await;
+                            }
+                            out.extend(bulk(&other.unwrap_or_else(|| "nothing-newer".into())))
                         }
                         Some(PingFault::Named(k)) => {
                             let mut name = NAMED_REPLIES[(k as usize / 2) % NAMED_REPLIES.len()];
